@@ -16,13 +16,13 @@ RULE = ("index dtype (8) x pattern {increasing, decreasing, constant, non-monoto
         "tolerance, range-wide} x rows {1,2,5} x window x user-supplied {none, index_min, index_max, spacing, "
         "direction} x index type {none, BOREHOLE-DEPTH, non-standard}; histories: second write of the same objects "
         "with another window / other data / other dtype; expectations by exact arithmetic on Fractions; SPACING of a "
-        "nearly uniform index may be any value inside the observed differences; NaN-containing indexes and "
+        "nearly uniform index is the median of the differences (the documented rule); NaN-containing indexes and "
         "tolerance-threshold cases are not generated; non-trivial = file written and FRAME attributes compared")
 ASSUMPTIONS = ["strict reader mc/rp66.py", "uniformity rule = documented (1 - d/median)^2 < 0.001",
                "float patterns are chosen so that all differences are exactly representable"]
 
 DTYPES = ['float64', 'float32', 'int32', 'int16', 'int8', 'uint8', 'uint16', 'uint32']
-PATTERNS = ['inc', 'dec', 'const', 'nonmono', 'tol', 'outside', 'wide']
+PATTERNS = ['inc', 'dec', 'const', 'nonmono', 'tol', 'outside', 'wide', 'skew-out', 'skew-in', 'skew-out-dec']
 USER = ['none', 'index_min', 'index_max', 'spacing', 'direction']
 ITYPE = [None, 'BOREHOLE-DEPTH', 'MY-INDEX']
 
@@ -39,6 +39,20 @@ def values(dtype, pattern, n):
         v = [1, 5, 3, 9, 2, 8][:n]
     elif pattern == 'tol':
         v = [1.0, 2.0, 3.0078125, 4.0, 5.0, 6.0][:n] if isf else None      # 3.0078125 = 3 + 2^-7, exact in float32
+    elif pattern == 'skew-out':
+        # regular step 25 with one step of 26 (4 % off): outside the tolerance around the median of ALL differences
+        v = [0, 25, 50, 75, 100, 126][:n] if n >= 5 else None
+        if v and n == 5:
+            v = [0, 25, 50, 75, 101]
+    elif pattern == 'skew-out-dec':
+        v = [126, 101, 76, 51, 26, 0][:n] if n >= 5 else None
+        if v and n == 5:
+            v = [126, 100, 75, 50, 25]
+    elif pattern == 'skew-in':
+        # regular step 40 with one step of 41 (2.5 % off): inside the tolerance; the spacing is the median, 40
+        v = [0, 40, 80, 121, 161, 201][:n] if n >= 5 else None
+        if v and dtype == 'int8':
+            v = None
     elif pattern == 'outside':
         v = [1, 2, 4, 5, 7, 8][:n]
     elif pattern == 'wide':
@@ -127,7 +141,7 @@ def expectation(dtype, vals, frm, to, itype, user):
             sd = sorted(d)
             m = sd[len(sd) // 2] if len(sd) % 2 else (sd[len(sd) // 2 - 1] + sd[len(sd) // 2]) / 2
             if m != 0 and all((1 - x / m) ** 2 < Fraction(1, 1000) for x in d):
-                exp['SPACING'] = ('range', min(d), max(d))
+                exp['SPACING'] = ('median', m)
                 exp['DIRECTION'] = ('any',)
             else:
                 exp['SPACING'] = ('absent',)
@@ -177,8 +191,8 @@ def compare(exp, fo):
             continue
         if e[0] == 'eq' and fv != e[1]:
             errs.append((f'{label}:wrong', f"{label} = {v!r}, expected {float(e[1])!r}"))
-        if e[0] == 'range' and not (e[1] <= fv <= e[2]):
-            errs.append((f'{label}:wrong', f"{label} = {v!r}, expected within [{float(e[1])}, {float(e[2])}]"))
+        if e[0] == 'median' and abs(fv - e[1]) > abs(e[1]) * Fraction(1, 10 ** 9):
+            errs.append((f'{label}:wrong:not-the-median', f"{label} = {v!r}, expected the median difference {float(e[1])!r}"))
     return errs
 
 
